@@ -4,7 +4,7 @@ bits; off-window data is rejected); obligations: wfTol per protocol and toleranc
 import vlib
 from props import engine_common as ec, engine_prove
 
-MODULES = ['IRModel.Props.C04']
+MODULES = ['IRModel.Props.C04', 'IRModel.Props.C04B']
 
 
 def perturb(frame, pattern, tn, r, period):
